@@ -75,6 +75,7 @@ def run(ck, facts, tier):
     c17.run(ck, facts, tier, only={"gradient1[Dual2]", "gradient2[Dual2]"})
     from rules import deps
     deps.include_alignment(ck, facts, tier)
+    deps.include_number_surface(ck, facts, tier)
     ck.not_decided += ["IEEE rounding; library kernels are atoms", "symmetry of a user-supplied asymmetric dual2 array",
                        "Hessian read-back factor 2 is C17's R17.2 (shared rule)"]
     ck.trusted += ["lib/oracle.py", "lib/cel.py"]
